@@ -18,6 +18,7 @@ package override
 
 import (
 	"fmt"
+	"path"
 	"strconv"
 	"strings"
 
@@ -128,7 +129,8 @@ func volumeIndexer(y any, p tree.Path) (string, error) {
 		if !ok {
 			return "", fmt.Errorf("service volume %s is missing a mount target", p)
 		}
-		return target, nil
+		// the mount point as normalization will write it: /data and /data/ are the same one
+		return path.Clean(target), nil
 	case string:
 		volume, err := format.ParseVolume(value)
 		if err != nil {
